@@ -65,6 +65,47 @@ def gen_case(seed):
     elif mode == "corrupt-first":
         sc["fates"]["corrupt_first"] = 0.3
     sc["mode"] = mode + ("+ku-rebind" if ku else "")
+    r3 = random.Random("c12-late0rtt/%s" % seed)
+    if r3.random() < 0.12:
+        # directed: a resumed session whose 0-RTT datagram (early data written just after the first flight left) is held
+        # back until the server has completed the handshake, while the client's first 1-RTT packets are lost: when it
+        # finally arrives it carries the highest packet number of the application space
+        sc["opts"].update(resume={})
+        for k in ("resume_forget", "retry", "frontend_vn"):
+            sc["opts"].pop(k, None)
+        if sc["opts"].get("versions_server") == ["v1"]:
+            sc["opts"].pop("versions_server")
+        sc["fates"] = {"delay": sc["fates"]["delay"], "adv_seconds": 2.0, "adv_dgrams": 10**6, "loss": 0.0,
+                       "forced": {"c2s:1": "late:%s" % r3.choice([0.9, 1.2, 1.6])}}
+        sc["script"] = [{"t": 0.0005, "side": "client", "op": "write", "sid": 0, "n": r3.choice([50, 400]), "fin": False}]
+        sc["mode"] = "late-0rtt"
+    return sc
+
+
+def tune_late0rtt(sc):
+    """Directed case: find (by repeated unmonitored runs, like C01's targeted cases) which client datagrams carry 1-RTT
+    packets and would reach the server before the held-back 0-RTT datagram, and drop exactly those: the server then
+    completes the handshake from a Handshake-only retransmission and the 0-RTT packet arrives as the first — hence
+    highest-numbered — application-space packet."""
+    from .. import simnet
+
+    delay = sc["fates"]["delay"]
+    forced = {k: v for k, v in sc["fates"]["forced"].items() if k == "c2s:1"}
+    late = float(forced["c2s:1"].split(":")[1])
+    arrival = 0.0005 + delay + late
+    for _ in range(20):
+        sc["fates"]["forced"] = dict(forced)
+        sim = simnet.SimNet(sc["opts"], simnet.Fates(sc["seed"], sc["fates"]), sc["script"], [], seed=sc["seed"], horizon=arrival + 0.05)
+        try:
+            simnet.run_sim(sim)
+        except Exception:
+            break
+        cand = [rec for rec in sim.datagrams["client"]
+                if rec.t_out + delay < arrival and ("c2s:%d" % rec.index) not in forced and any(v.ptype == "1rtt" for v in rec.views or [])]
+        if not cand:
+            break
+        forced["c2s:%d" % cand[0].index] = "drop"
+    sc["fates"]["forced"] = dict(forced)
     return sc
 
 
@@ -76,6 +117,9 @@ def run_batch(batch):
     t0 = time.time()
     for seed in batch["seeds"]:
         sc = gen_case(seed)
+        if sc["mode"] == "late-0rtt":
+            sc = tune_late0rtt(sc)
+            res.count("late_0rtt_cases")
         am = monitors.AckMonitor(check_timeliness=True)
         multi = {"n": 0}
         sim, ok = run_case(sc, [am], res, {"gen": "acks", "seeds": [seed]},
